@@ -6,7 +6,7 @@ ID = 'C05'
 LEAN_MODULES = ['TboxModel.C05.Props']
 EXE = 'c05'
 MODE = 'trace'
-THEOREMS = ['Tbox.C05.C05_accounted', 'Tbox.C05.C05_final_accounting', 'Tbox.C05.C05_cleanup_joins_all',
+THEOREMS = ['Tbox.C05.C05_execute_appends', 'Tbox.C05.C05_accounted', 'Tbox.C05.C05_final_accounting', 'Tbox.C05.C05_cleanup_joins_all',
             'Tbox.C05.C05_no_lost_wakeup', 'Tbox.C05.C05_no_stranded_task', 'Tbox.C05.C05_cleanup_joins_all_counterexample',
             'Tbox.C05.C05_no_stranded_task_counterexample',
             'Tbox.C05.C05_exactly_once', 'Tbox.C05.C05_worker_only', 'Tbox.C05.C05_callback_once',
@@ -44,7 +44,7 @@ RULE_OLD = ('cases = (pool min/max in {0..4}x{1..6} incl. invalid, or WorkThread
 
 
 RULE = ('cases = (pool min/max in {0..4}x{1..6} incl. invalid, or WorkThread) x 1-200 tasks (priorities -3..3, bodies 0-3 ms, callbacks) interleaved '
-        'with status/cancel/snapshot/hammer/settle ops and offloop phases (the loop is stopped, a burst of tasks with callbacks is submitted and finishes, the loop runs again), cleanup at a random point, PRNG-seeded delays (worker: before mutex lock, between predicate and '
+        'with status/cancel/snapshot/hammer/settle ops re-entrant API use (task bodies on workers and completion callbacks calling execute/cancel/getTaskStatus of the same pool), offloop phases (the loop is stopped, a burst of tasks with callbacks is submitted and finishes, the loop runs again), cleanup at a random point, PRNG-seeded delays (worker: before mutex lock, between predicate and '
         'wait, after unlock; loop thread inside cleanup: after unlock); worker-level records (threads created per execute, quiescent snapshots, thread '
         'start/end) checked against the model\'s spawn / voluntary-exit decisions as model-internal observables; non-trivial = at least one task ran AND '
         '(an answer waiting/executing/cancelled was observed OR >= 2 workers ran bodies OR the pick-order clause was asserted on >= 1 pair OR a spawn / '
@@ -95,7 +95,29 @@ def gen_case(rng, tier):
         for _ in range(rng.choice([1, 2, 3, 6])): ex()
         ops.append('drain')
         ops.append('sleep %d' % rng.choice([0, 100, 500, 1500, 4000, 6000, 8000, 10000]))
-    elif shape < 0.36:
+    elif shape < 0.33:
+        # re-entrant API use: task bodies (on workers) and completion callbacks call execute / cancel / getTaskStatus
+        def script(allow_ref):
+            acts = []
+            for _ in range(rng.choice([1, 1, 2, 3, 4])):
+                q = rng.random()
+                if q < 0.55: acts.append('x%d:%d:%d' % (rng.choice([-2, -1, 0, 0, 0, 1, 2]), rng.randrange(2), rng.choice([0, 0, 100, 500])))
+                elif q < 0.7 and allow_ref and n[0]: acts.append('%s%d' % (rng.choice('sc'), rng.randrange(n[0])))
+                else: acts.append(rng.choice('SC'))
+            return ','.join(acts)
+        if rng.random() < 0.5:
+            ops.append('exec 0 0 %d' % rng.choice([1000, 3000, 5000])); n[0] += 1      # a gate: the queue builds up behind it
+        for _ in range(rng.choice([2, 4, 8, 12])):
+            if rng.random() < 0.6:
+                cb = rng.randrange(2)
+                ops.append('execs %d %d %d %s %s' % (rng.choice([-1, 0, 0, 0, 1]), cb, rng.choice([0, 200, 1000, 3000]),
+                                                   script(True) if rng.random() < 0.8 else '-',
+                                                   script(True) if cb and rng.random() < 0.6 else '-'))
+                n[0] += 1
+            else: ex()
+            if rng.random() < 0.25: probe()
+        ops.append(rng.choice(['drain', 'settle', 'drain']))
+    elif shape < 0.38:
         # completion callbacks posted while the loop is NOT running (between two runLoop() calls): several workers
         # finish tiny tasks with callbacks about together and post to a stopped loop
         for _ in range(rng.choice([0, 0, 1, 3])): ex()
@@ -103,7 +125,7 @@ def gen_case(rng, tier):
             ops.append('offloop %d %d' % (rng.choice([2, 4, 8, 16, 32]), rng.choice([0, 0, 0, 50, 300])))
             if rng.random() < 0.5: probe()
         if rng.random() < 0.5: ops.append('settle')
-    elif shape < 0.42:
+    elif shape < 0.44:
         # (e) a task submitted while the last worker is on its way out must still be executed
         for _ in range(rng.choice([1, 1, 2, 3])): ex()
         for _ in range(rng.choice([1, 2, 3])):
@@ -111,7 +133,7 @@ def gen_case(rng, tier):
             ops.append('sleep %d' % rng.choice([500, 1500, 3000, 4000, 5000, 6000, 8000]))
             for _ in range(rng.choice([1, 1, 2])): ex()
         ops.append(rng.choice(['drain', 'settle']))
-    elif shape < 0.50:
+    elif shape < 0.52:
         # spawn rule / voluntary-exit rule at quiescent points (worker-level records, M-class)
         ops.append('settle')
         for _ in range(rng.choice([2, 4, 8])):
@@ -149,6 +171,8 @@ def gen_case(rng, tier):
 def gen(rng, tier):
     n = 220 if tier == 'quick' else 2500
     # malformed stream: both sides answer bad-op
+    yield ['cfg pool 1 1 5 0', 'execs 0 0 0 s0 -', 'execs 0 0 0 - x0:0:0', 'execs 0 1 0 x0:0 -', 'execs 0 1 0 x0:0:0,,S -', 'execs 0 1 0 S,C,S,C,S,C,S -',
+           'execs 0 1 0 x0:0:0 c0', 'exec 0 0 0', 'execs 0 1 0 s0,c0 S', 'drain', 'cleanup', 'fin', 'exec 0 0 0']
     yield ['offloop 4 0', 'cfg pool 2 2 5 0', 'offloop 0 0', 'offloop 65 0', 'offloop 2 x', 'offloop 2 0', 'cleanup', 'offloop 2 0', 'fin']
     yield ['exec 0 0 0', 'cfg pool 1 x 1 0', 'cfg pool 2 2 5 0', 'cfg pool 1 1 1 0', 'exec 0 2 0', 'exec 101 0 0', 'stat 0', 'exec 1 1 100',
            'stat 1', 'cancel x', 'snap 1', 'frob', 'hammer 999999', 'cleanup', 'fin', 'fin']
@@ -163,6 +187,15 @@ def gen(rng, tier):
     yield ['cfg pool 1 3 18 300', 'settle', 'exec 0 0 300', 'settle', 'exec 0 0 300', 'exec 0 0 300', 'exec 0 0 300', 'settle', 'snap',
            'exec 0 1 100', 'settle', 'cleanup', 'fin']
     yield ['cfg pool 0 3 19 900', 'exec 0 0 100', 'exec 0 0 100', 'exec 0 0 100', 'drain', 'sleep 8000', 'cleanup', 'fin']
+    # deterministic: (1,1) pool, a 20 ms gate task whose body submits two same-priority tasks and one of higher priority
+    # after its sleep; meanwhile the loop thread queues A, B behind the gate.  Order is fully determined:
+    # gate, nested(-1), A, B, nested#1, nested#2.
+    yield ['cfg pool 1 1 31 0', 'execs 0 0 20000 x0:0:0,x0:1:0,x-1:0:0 -', 'exec 0 0 0', 'exec 0 1 0', 'drain', 'settle', 'cleanup', 'fin']
+    yield ['cfg wt 0 0 32 0', 'execs 0 0 20000 x0:0:0,x0:0:0,S -', 'exec 0 0 0', 'drain', 'cleanup', 'fin']
+    yield ['cfg pool 1 1 33 0', 'exec 0 0 20000', 'execs 0 1 0 x0:0:0,C,x0:0:0,s0 x0:0:0,s0,c0', 'exec 0 0 0', 'exec 1 0 0', 'drain', 'settle',
+           'stat 1', 'cleanup', 'fin']
+    yield ['cfg pool 2 3 34 300', 'exec 0 0 3000', 'execs 0 1 500 x0:0:100,C,x1:1:0,s0 x0:0:0,S', 'execs -1 0 0 x0:0:0,x0:0:0,x0:0:0 -', 'exec 0 0 0',
+           'hammer 2000', 'drain', 'cleanup', 'fin']
     yield ['cfg pool 4 4 21 0', 'offloop 16 0', 'offloop 32 0', 'settle', 'offloop 8 100', 'cleanup', 'fin']
     yield ['cfg pool 0 6 22 150', 'offloop 32 0', 'stat 3', 'offloop 16 50', 'drain', 'cleanup', 'fin']
     yield ['cfg pool 2 3 23 300', 'exec 0 1 500', 'offloop 8 0', 'hammer 1000', 'offloop 24 0', 'settle', 'cleanup', 'fin']
@@ -183,7 +216,7 @@ def nontrivial(ops, model_lines):
     tags = ' '.join(l for l in model_lines if l.startswith('B ')).split()
     if 'ran' not in tags: return None
     return 1 if any(t in tags for t in ('stat-w', 'stat-e', 'cancel-0', 'cancel-2', 'multi-worker', 'order-checked', 'spawn-checked-0',
-                                       'spawn-checked-1', 'exit-rule-checked', 'offloop')) else None
+                                       'spawn-checked-1', 'exit-rule-checked', 'offloop', 'nested-exec', 'worker-query', 'worker-cancel')) else None
 
 
 def fingerprint(ops, d):
